@@ -107,7 +107,11 @@ WITNESSES = [
                {"what": "let with a wrong annotation", "session": ["let y: Int = \"a\""], "resumes": 3},
                {"what": "destructuring let of the wrong size", "session": ["let (a, b) = (1, 2, 3)"], "resumes": 3},
                {"what": "destructuring let of a non-tuple", "session": ["let (c, d) = 1"], "resumes": 3}]},
-    _resume("`+=` on an unbound variable / with a non-Int", ["let n = 1", "n += \"a\""], r"steps\.eval_assign_update\."),
+    {"match": r"steps\.eval_assign_update\.", "kind": "resume-corpus", "props": ["C07"], "expect": {}, "note": "`+=` failing on each of its error paths, resumed",
+     "input": [{"what": "`+=` with a non-Int right-hand side", "session": ["let n = 1", "n += \"a\""], "resumes": 3},
+               {"what": "`+=` on a String variable", "session": ["let s = \"a\"", "s += 1"], "resumes": 3},
+               {"what": "`+=` on a String parameter inside a loop in a callee", "session": ["fun tally(label, xs) { for x in xs { label += x } label }", "tally(\"total\", [1, 2, 3])"], "resumes": 3},
+               {"what": "`-=` on an unbound variable", "session": ["fun dec() { nosuch -= 1 }", "dec()"], "resumes": 3}]},
     _resume("field access on a non-struct", ["1.field"], r"steps\.eval_dot_access\."),
     {"match": r"steps\.arm_Return\.", "kind": "json-session", "props": ["C06"],
      "input": ["if True { let leaked_local = 1 return 5 }", "leaked_local"],
